@@ -15,7 +15,8 @@ EXPL = ("The global invariant (a recursive structure over unbounded histories wi
         "wipes the whole tree range first; (R-META-ROOTS/ITEMS) the metadata publishes the updated roots vector and the live item "
         "scan; (R-TMP-APPLY) every TmpNodesReader has its deletes and inserts applied, skipping removed ids and applying remaps; "
         "(P-SELECT) the batch selector partitions its input (nothing dropped or duplicated). NOT decided: that these compose into the "
-        "global invariant for all histories; remap semantics across batches; changing split_after between builds.")
+        "global invariant for all histories; remap semantics across batches; changing split_after between builds."
+        " Added during the build round: (R-BATCH-SETS) the removal pass receives every updated id, the insertion pass live & updated, a tree created from scratch every live id; (R-FULL-SCAN) no truncating or filtering adaptor between an LMDB cursor and its consumer in the writer / parallel / upgrade code; (R-TMP-APPLY, applied-before-next-round) pending nodes are written back before the trees are snapshotted again; (R-SYMMETRY, walkers) the recursive tree deletion visits both children unless a child's own link was seen not to be a tree; (R-KIND, unguarded) a link's id reaches a tree-id sink only under a test of that link's own mode. The C06 staleness rules are re-evaluated as a premise.")
 
 
 def run(ctx):
